@@ -10,14 +10,23 @@ use std::borrow::Borrow;
 use std::collections::HashSet;
 use std::hash::Hash;
 use std::mem;
+#[cfg(not(all(excsn_fibre_verif, excsn_fibre_verif_shuttle)))]
 use std::sync::{
   atomic::{AtomicBool, Ordering},
   Arc, Weak,
 };
+#[cfg(all(excsn_fibre_verif, excsn_fibre_verif_shuttle))]
+use {
+  crate::internal::sync::{AtomicBool, Ordering},
+  std::sync::{Arc, Weak},
+};
 use std::time::Duration;
 
 use papaya::Equivalent;
+#[cfg(not(all(excsn_fibre_verif, excsn_fibre_verif_shuttle)))]
 use parking_lot::Mutex;
+#[cfg(all(excsn_fibre_verif, excsn_fibre_verif_shuttle))]
+use crate::internal::sync::Mutex;
 
 // --- Sync Sender ---
 
